@@ -202,7 +202,8 @@ Theorem C03_tests_sound :
 Proof. split; [exact unordered_eqb_fperm | exact same_levels_tperm]. Qed.
 Print Assumptions C03_tests_sound.
 From Coq Require Import Permutation Sorted.
-From Annet Require Import Model.Pattern Model.DiffX Model.DiffSort Spec.P_C03X Proofs.DiffXProofs Proofs.DiffMProofs Proofs.DiffSortProofs.
+From Annet Require Import Model.Pattern Model.DiffX Model.DiffSort Spec.P_C03X Spec.P_C03Recon Proofs.DiffXProofs Proofs.DiffMProofs Proofs.DiffSortProofs
+     Proofs.DiffProofsLib Proofs.DiffProofsLossless Proofs.DiffProofsRecon Proofs.DiffMLevelProofs Proofs.DiffMDeepProofs Spec.P_C03ML.
 
 (* ================================================================================================
    C03X -- the extended domain: %ignore_case re-keying, %multiline rules (Model/DiffX.v, Spec/P_C03X.v) and
@@ -385,34 +386,217 @@ Example C03X_xdom_excludes_respelled_block :
   xdom fl (annot_f ci_match rs [("Blk A", T [("set 1", T [])])]) (annot_f ci_match rs [("blk a", T [("set 2", T [])])]) = false.
 Proof. vm_compute. reflexivity. Qed.
 
-(* NOT PROVED (statements kept):
-   - losslessness at every depth for trees that contain rows of %multiline rules: Spec/P_C03X.v [ml_level_ok] says
-     what a level must satisfy (a multiline row is shown iff its bodies differ as ordered trees, exactly once, with an
-     exact op and the whole body); it is evaluated on every real output of the correspondence but its proof for
-     diff_tM needs the level lemmas of Proofs/DiffProofsLossless.v redone for the fourth group. *)
+(* ------------------------------------------------------------------------------------------------
+   %multiline: the per-level law.  Spec/P_C03X.v [ml_level_ok] says what a level must satisfy: a row of a %multiline
+   rule is shown iff its bodies differ as ordered trees (absent = empty), exactly once, with an exact op and the
+   whole body of the side it is read from (all its lines ADDED, or REMOVED for a removed block); entries of the other
+   three groups are never rows of %multiline rules.  It is evaluated on every real output of the correspondence. *)
 Definition C03X_multiline_level_statement : Prop :=
   forall fl rmatch rs old new,
     let ao := annot_f rmatch rs old in let an := annot_f rmatch rs new in
     xdom fl ao an = true ->
     ml_level_ok fl (normO fl ao an) (normN fl ao an) (make_diffXM fl rmatch rs old new) = true.
-(* - a projection theorem for sides WITH %rewrite rows: the rows an unchanged %rewrite group contributes are
-     omitted from the diff and must be taken from the other configuration.  [recon_old an d] = proj_old d plus, on
-     every level, the %rewrite rows of new that the diff does not mention; missing: the induction (mirror of
-     Proofs/DiffProofsProj.v: level_proj_old with the [norw] case replaced by [same_t] => fperm of the erasures). *)
-Fixpoint recon_n (drop : op) (other : aforest) (d : dnode) {struct d} : forest :=
-  match d with
-  | DN o row _ kids =>
-    if op_eqb o drop then []
-    else let sub := asub_of other row in
-         [(row, T (flat_map (recon_n drop sub) kids ++
-                   erase_f (filter (fun k => dlogic_eqb (mi_dlogic (ami k)) DRewrite &&
-                                             negb (existsb (fun x => String.eqb (d_row x) (arow k)) kids)) sub)))]
-  end.
-Definition recon (drop : op) (other : aforest) (d : list dnode) : forest :=
-  flat_map (recon_n drop other) d ++
-  erase_f (filter (fun k => dlogic_eqb (mi_dlogic (ami k)) DRewrite &&
-                            negb (existsb (fun x => String.eqb (d_row x) (arow k)) d)) other).
+
+Theorem C03X_multiline_level : C03X_multiline_level_statement.
+Proof.
+  intros fl rmatch rs old new ao an H. destruct (xdom_inv fl _ _ H) as (Ho & Hn & Hc).
+  unfold make_diffXM. apply ml_level_ok_mark. fold ao an.
+  change (normN fl ao an) with (akids (AT (normN fl ao an))) at 1.
+  apply diff_tM_level_ml; try assumption. left. reflexivity.
+Qed.
+Print Assumptions C03X_multiline_level.
+
+(* the same law for the level below ANY entry the extended differ produces: it holds of diff_tM for every old side,
+   handed-down op and rewrite marker (the three hypotheses are what [xdom] gives for the normalised pair and what
+   every recursive call preserves: rows distinct, common rows carry the same match, and the op handed down to a
+   level with old rows is AFFECTED or MOVED) *)
+Theorem C03X_multiline_level_any_depth :
+  forall fl nt ao pop inrw, awf ao -> awf (akids nt) -> compat ao (akids nt) -> pop_ok pop ao ->
+    ml_level_ok fl ao (akids nt) (diff_tM fl nt ao pop inrw) = true.
+Proof. exact diff_tM_level_ml. Qed.
+Print Assumptions C03X_multiline_level_any_depth.
+
+(* ... and therefore at EVERY depth of the diff ([ml_ok], Spec/P_C03ML.v: the law at the top level and at the level
+   below every entry that is not itself a row of a %multiline rule): below scanned rows, below removed rows
+   (removed_tM), through rewrite_diff's AFFECTED->MOVED pass and through mark_unchanged.  Evaluated on every real
+   output of the correspondence too. *)
+Theorem C03X_multiline_every_depth :
+  forall fl rmatch rs old new,
+    let ao := annot_f rmatch rs old in let an := annot_f rmatch rs new in
+    xdom fl ao an = true ->
+    ml_ok fl (normO fl ao an) (normN fl ao an) (make_diffXM fl rmatch rs old new) = true.
+Proof.
+  intros fl rmatch rs old new ao an H. destruct (xdom_inv fl _ _ H) as (Ho & Hn & Hc).
+  unfold make_diffXM. apply ml_ok_mark. fold ao an.
+  change (normN fl ao an) with (akids (AT (normN fl ao an))) at 1.
+  apply diff_tM_ml_ok; try assumption. left. reflexivity.
+Qed.
+Print Assumptions C03X_multiline_every_depth.
+
+(* everything below a removed row obeys the law against an empty new side *)
+Theorem C03X_multiline_removed_subtree :
+  forall fl t, awf (akids t) -> ml_ok fl (akids t) [] (removed_tM fl t) = true.
+Proof. exact removed_ml. Qed.
+Print Assumptions C03X_multiline_removed_subtree.
+
+(* non-vacuity at depth: a changed multiline block inside an ordinary block *)
+Example C03X_multiline_depth_nonvacuous :
+  let rs := ([PRule "blk" false (x_attrs "blk") [PRule "key %multiline" false (x_attrs "key") [PRule "l" false (x_attrs "l") [] []] []] []], []) in
+  let old := [("blk a", T [("key k", T [("l1", T [])])])] in
+  let new := [("blk a", T [("key k", T [("l2", T [])])])] in
+  xdom x_fl (annot_f ci_match rs old) (annot_f ci_match rs new) = true /\
+  map (fun k => (d_op k, d_row k, map (fun j => (d_op j, d_row j, map d_row (d_kids j))) (d_kids k))) (make_diffXM x_fl ci_match rs old new) =
+  [(Affected, "blk a", [(Affected, "key k", ["l2"])])].
+Proof. vm_compute. split; reflexivity. Qed.
+
+(* non-vacuity: a level with a changed multiline block, an unchanged one and an ordinary row *)
+Example C03X_multiline_level_nonvacuous :
+  let old := [("key a", T [("l1", T []); ("l2", T [])]); ("key b", T [("l1", T [])]); ("mtu 1", T [])] in
+  let new := [("key a", T [("l1", T []); ("l3", T [])]); ("key b", T [("l1", T [])]); ("mtu 2", T [])] in
+  xdom x_fl (annot_f ci_match x_rs old) (annot_f ci_match x_rs new) = true /\
+  map (fun k => (d_op k, d_row k, List.length (d_kids k))) (make_diffXM x_fl ci_match x_rs old new) =
+  [(Affected, "key a", 2); (Added, "mtu 2", 0); (Removed, "mtu 1", 0)].
+Proof. vm_compute. split; reflexivity. Qed.
+
+(* ------------------------------------------------------------------------------------------------
+   The reconstruction law for sides WITH %rewrite rows (Spec/P_C03Recon.v).  The rows an unchanged %rewrite group
+   contributes are omitted from the diff and are taken from the other configuration: [recon Added an d] = proj_old d
+   plus, on every level, the %rewrite rows of new that the diff does not mention (with their subtrees), and
+   symmetrically [recon Removed ao d].  Both sides are recovered as unordered trees, nesting intact -- for EVERY
+   rulebook (no [norw] guard); without %rewrite rows on the other side recon is the plain projection. *)
 Definition C03X_projections_rewrite_statement : Prop :=
   forall rmatch rs old new, wf old -> wf new ->
     fperm (recon Added (annot_f rmatch rs new) (make_diff rmatch rs old new)) (erase_f (annot_f rmatch rs old)) /\
     fperm (recon Removed (annot_f rmatch rs old) (make_diff rmatch rs old new)) (erase_f (annot_f rmatch rs new)).
+
+Theorem C03X_projections_rewrite : C03X_projections_rewrite_statement.
+Proof. exact diff_recon. Qed.
+Print Assumptions C03X_projections_rewrite.
+
+(* it is a consequence of [lossless] alone, so it holds of any diff the checker accepts -- in particular of the
+   real make_diff outputs on which P_C03 is evaluated *)
+Theorem C03X_recon_of_lossless :
+  forall d ao an, awf ao -> awf an -> lossless ao an d = true ->
+    fperm (recon Added an d) (erase_f ao) /\ fperm (recon Removed ao d) (erase_f an).
+Proof. intros d ao an Ho Hn H. split; [eapply lossless_recon_old | eapply lossless_recon_new]; eassumption. Qed.
+Print Assumptions C03X_recon_of_lossless.
+
+(* and of the %ignore_case model on its domain: both NORMALISED sides are recovered *)
+Theorem C03X_projections_rewrite_modulo_case :
+  forall fl rmatch rs old new,
+    let ao := annot_f rmatch rs old in let an := annot_f rmatch rs new in
+    xdom fl ao an = true ->
+    fperm (recon Added (normN fl ao an) (make_diffX fl rmatch rs old new)) (erase_f (lower_f fl ao)) /\
+    fperm (recon Removed (normO fl ao an) (make_diffX fl rmatch rs old new)) (erase_f (lower_f fl an)).
+Proof.
+  intros fl rmatch rs old new ao an H. destruct (xdom_inv fl _ _ H) as (Ho & Hn & Hc).
+  pose proof (diffX_lossless fl rmatch rs old new H) as HL. fold ao an in HL.
+  rewrite <- (erase_f_normO fl ao an), <- (erase_f_normN fl ao an).
+  split; [eapply lossless_recon_old | eapply lossless_recon_new]; eassumption.
+Qed.
+Print Assumptions C03X_projections_rewrite_modulo_case.
+
+(* recon extends the projections of C03_projections: nothing is added where the other side has no %rewrite row *)
+Theorem C03X_recon_is_projection_without_rewrite :
+  forall drop other x, norw other = true -> recon_n drop other x = proj_n drop x.
+Proof. intros drop other x H. apply recon_norw_n. exact H. Qed.
+Print Assumptions C03X_recon_is_projection_without_rewrite.
+
+(* non-vacuity: an unchanged %rewrite block next to a changed row: the diff omits the block, proj_old loses it,
+   recon restores it *)
+Definition rw_rs : rset :=
+  ([PRule "blk %rewrite" false (Attrs "blk" LDefault DRewrite false false) [PRule "set" false (x_attrs "set") [] []] [];
+    PRule "mtu" false (x_attrs "mtu") [] []], []).
+Example C03X_recon_nonvacuous :
+  let old := [("blk a", T [("set 1", T [])]); ("mtu 1", T [])] in
+  let new := [("blk a", T [("set 1", T [])]); ("mtu 2", T [])] in
+  wf old /\ wf new /\
+  map d_row (make_diff ex_match rw_rs old new) = ["mtu 2"; "mtu 1"] /\
+  proj_old (make_diff ex_match rw_rs old new) = [("mtu 1", T [])] /\
+  recon Added (annot_f ex_match rw_rs new) (make_diff ex_match rw_rs old new) =
+  [("mtu 1", T []); ("blk a", T [("set 1", T [])])].
+Proof. split; [apply wfb_wf; reflexivity|]. split; [apply wfb_wf; reflexivity|]. vm_compute. repeat split; reflexivity. Qed.
+
+(* ------------------------------------------------------------------------------------------------
+   LOSSLESS MODULO CASE, about the ORIGINAL pair.  Spec/P_C03Case.v [spelt fl ao f]: f is the configuration ao
+   (its known rows) re-spelt: the same rows in the same order with the same nesting, where a row governed by an
+   %ignore_case rule may be replaced by its lower-case spelling and nothing else changes (multiline bodies verbatim).
+   On [xdom] the diff together with the other side determines a re-spelling of each side, up to the order of the
+   rows of a level, for every rulebook (with or without %rewrite rules).  What is lost is exactly the spelling:
+   a re-spelling equals the original up to the case of rows ([ci_eq]) and IS the original when no row is governed by
+   an %ignore_case rule. *)
+From Coq Require Import ZArith.
+From Annet Require Import Spec.P_C03Case Spec.P_C03Sort Proofs.DiffCaseProofs Proofs.DiffSortAdj.
+
+Theorem C03X_lossless_original_modulo_case :
+  forall fl rmatch rs old new,
+    let ao := annot_f rmatch rs old in let an := annot_f rmatch rs new in
+    xdom fl ao an = true ->
+    exists fo fn, spelt fl ao fo /\ spelt fl an fn /\
+      fperm (recon Added (normN fl ao an) (make_diffX fl rmatch rs old new)) fo /\
+      fperm (recon Removed (normO fl ao an) (make_diffX fl rmatch rs old new)) fn.
+Proof.
+  intros fl rmatch rs old new ao an H. exists (erase_f (lower_f fl ao)), (erase_f (lower_f fl an)).
+  split; [apply spelt_lower_f|]. split; [apply spelt_lower_f|].
+  exact (C03X_projections_rewrite_modulo_case fl rmatch rs old new H).
+Qed.
+Print Assumptions C03X_lossless_original_modulo_case.
+
+Theorem C03X_only_spelling_lost :
+  forall fl f g, spelt fl f g -> ci_eq g (erase_f f) /\ (noic fl f = true -> g = erase_f f).
+Proof.
+  intros fl f g H. split; [apply (spelt_ci fl f g H)|]. intros Hn. exact (spelt_noic fl (AT f) g Hn H).
+Qed.
+Print Assumptions C03X_only_spelling_lost.
+
+(* the re-spelling is not the identity in general: C03X_modulo_case_nonvacuous above has old <> new with one normal form *)
+Example C03X_spelt_nonvacuous :
+  let ao := annot_f ci_match x_rs [("Desc A", T []); ("mtu 1", T [])] in
+  spelt x_fl ao [("desc a", T []); ("mtu 1", T [])] /\ erase_f ao = [("Desc A", T []); ("mtu 1", T [])].
+Proof.
+  split; [|vm_compute; reflexivity].
+  pose proof (spelt_lower_f x_fl (annot_f ci_match x_rs [("Desc A", T []); ("mtu 1", T [])])) as H.
+  vm_compute in H. exact H.
+Qed.
+
+(* ------------------------------------------------------------------------------------------------
+   resort_diff with NO hypothesis on diff_cmp.  diff_cmp is sign-antisymmetric for all entries, so "not greater" is
+   total; the stable insertion sort then leaves no entry immediately followed by a strictly smaller one, at every
+   depth ([adj_all], Spec/P_C03Sort.v).  The strong form (C03X_resort_sorted_stable) therefore needs transitivity on
+   the entries of the level only -- and that hypothesis cannot be dropped: for the entries of
+   C03X_diff_cmp_not_weak_order the output is not strongly sorted although a strongly sorted arrangement of the same
+   entries exists and is what resort returns for another input order. *)
+Theorem C03X_diff_cmp_antisymmetric : forall a b, diff_cmp b a = (- diff_cmp a b)%Z.
+Proof. exact diff_cmp_antisym. Qed.
+Print Assumptions C03X_diff_cmp_antisymmetric.
+
+Theorem C03X_resort_no_adjacent_descent :
+  forall d, adj_all (resort d) = true /\ Sorted (fun a b => cmp_leb a b = true) (resort d).
+Proof. intros d. split; [apply resort_adj_all | apply resort_adjacent]. Qed.
+Print Assumptions C03X_resort_no_adjacent_descent.
+
+Theorem C03X_resort_sorted_stable_transitive :
+  forall d, trans_lvl d = true ->
+    StronglySorted (fun a b => cmp_leb a b = true) (resort d) /\
+    (forall x, In x d -> filter (eqv_on cmp_leb (resort_n x)) (resort d) =
+                         filter (eqv_on cmp_leb (resort_n x)) (map resort_n d)).
+Proof. exact resort_sorted_stable_trans. Qed.
+Print Assumptions C03X_resort_sorted_stable_transitive.
+
+Theorem C03X_resort_transitivity_needed :
+  exists d p, Permutation p d /\ trans_lvl d = false /\
+    StronglySorted (fun a b => cmp_leb a b = true) (resort p) /\
+    ~ StronglySorted (fun a b => cmp_leb a b = true) (resort d) /\ adj_all (resort d) = true.
+Proof.
+  pose (a3 := DN Removed "a 3" sx_mi []). pose (a1 := DN Removed "a 1" sx_mi []). pose (a2 := DN Added "a 2" sx_mi []).
+  exists [a3; a1; a2], [a1; a3; a2]. split.
+  - apply perm_swap.
+  - split; [vm_compute; reflexivity|]. split.
+    + assert (E : resort [a1; a3; a2] = [a1; a2; a3]) by (vm_compute; reflexivity). rewrite E.
+      repeat constructor.
+    + split; [|vm_compute; reflexivity].
+      assert (E : resort [a3; a1; a2] = [a3; a1; a2]) by (vm_compute; reflexivity). rewrite E.
+      intros H. inversion H as [|x l _ HF]; subst. inversion HF as [|y l' _ HF2]; subst. inversion HF2 as [|z l'' Hz _]; subst.
+      vm_compute in Hz. discriminate.
+Qed.
+Print Assumptions C03X_resort_transitivity_needed.
